@@ -503,11 +503,9 @@ func (cs *clientStream) doHttpCall(transport http.RoundTripper, req *http.Reques
 			// final message is a trailer (need lock to write to cs.tr)
 			cs.rMu.Lock()
 			rMuHeld = true // defer above will unlock for us
-			cs.rErr = readProtoMessage(reply.Body, cs.codec, int32(-sz), &cs.tr)
-			if cs.rErr != nil {
-				if cs.rErr == io.EOF {
-					cs.rErr = io.ErrUnexpectedEOF
-				}
+			rErr = readProtoMessage(reply.Body, cs.codec, int32(-sz), &cs.tr)
+			if rErr == io.EOF {
+				rErr = io.ErrUnexpectedEOF
 			}
 			if len(cs.tr.Metadata) > 0 && len(cs.copts.Trailers) > 0 {
 				cs.copts.SetTrailers(metadataFromProto(cs.tr.Metadata))
